@@ -268,11 +268,49 @@ let operand_ids (o : string) : int list =
   | "stack" | "concat" -> int_of_string f.(1) :: ints f.(3)
   | "repeat" | "trace" -> [int_of_string f.(1)]
   | "lin" -> [int_of_string f.(2); int_of_string f.(3)]
+  | "dot" -> [int_of_string f.(1); int_of_string f.(2)]
   | "inner" -> [int_of_string f.(1); int_of_string f.(2)]
   | _ -> (try [int_of_string f.(1)] with _ -> [])
 
 (* extension point: operand ids of operations added by other driver modules *)
 let extra_operands : (string, string array -> int list) Hashtbl.t = Hashtbl.create 16
+
+(* Some API-level operations are compositions of modelled operations: the dispatching tensor.Dot
+   (defaultengine_linalg.go: vector.matrix is b.T(); defer b.UT(); b.MatVecMul(a)), and products
+   given BOTH WithReuse and WithIncr (the product lands in the reuse tensor, then incr += it and
+   incr is returned).  expand gives the operation list and the index of the operation whose
+   outcome is the call's outcome; operations after that index always run (the deferred UT). *)
+let lmode_of (s : string) : lmode * (int * int) option =
+  match String.split_on_char '.' s with
+  | ["safe"] -> (LSafe, None)
+  | ["reuse"; r] -> (LReuse (nat_of_int (int_of_string r)), None)
+  | ["incr"; r] -> (LIncr (nat_of_int (int_of_string r)), None)
+  | ["both"; r; i] -> (LReuse (nat_of_int (int_of_string r)), Some (int_of_string r, int_of_string i))
+  | _ -> failwith "lmode"
+
+let expand (o : string) (impl_step : string) : zop list * int =
+  let f = fields o in
+  let nat i = nat_of_int (int_of_string f.(i)) in
+  let with_both (lin : lmode -> zop) (mode : string) : zop list * int =
+    match lmode_of mode with
+    | (lm, None) -> ([lin lm], 0)
+    | (lm, Some (r, i)) ->
+      ([lin lm; ZBin (z_of_int (bin_code "add"), nat_of_int i, nat_of_int r, MUnsafe, false)], 1) in
+  match f.(0) with
+  | "lin" when String.length f.(4) >= 4 && String.sub f.(4) 0 4 = "both" ->
+    let code = (match f.(1) with "matmul" -> 0 | "matvec" -> 1 | "outer" -> 2 | x -> failwith x) in
+    with_both (fun lm -> ZLin (z_of_int code, nat 2, nat 3, lm, z_of_int (refusal impl_step))) f.(4)
+  | "dot" ->
+    let shape i = (match get_t !cur_model (nat i) with Some d -> d.d_ap.shp | None -> []) in
+    let sa = shape 1 and sb = shape 2 in
+    let lin code a b = (fun lm -> ZLin (z_of_int code, a, b, lm, z_of_int (refusal impl_step))) in
+    if is_vector sa && List.length sb = 2 then
+      let (l, k) = with_both (lin 1 (nat 2) (nat 1)) f.(3) in
+      (ZBase (OT (nat 2, [])) :: l @ [ZBase (OUT (nat 2))], k + 1)
+    else if List.length sa = 2 && is_vector sb then with_both (lin 1 (nat 1) (nat 2)) f.(3)
+    else if List.length sa = 2 && List.length sb = 2 then with_both (lin 0 (nat 1) (nat 2)) f.(3)
+    else failwith "dot: operand ranks not modelled"
+  | _ -> ([parse_op o impl_step], 0)
 
 let run_prog_gen (kept : bool) dt (prog : string) (impl : string) : outcome =
   let ops = Array.of_list (split_ops prog) in
@@ -293,9 +331,28 @@ let run_prog_gen (kept : bool) dt (prog : string) (impl : string) : outcome =
         let is_ret = (fields o).(0) = "ret" in
         if is_ret then Hashtbl.replace dead (int_of_string (fields o).(1)) ();
         (* ReturnTensor: the tensor is gone; nothing else may change (MODEL and SPEC: a no-op) *)
-        let op = if is_ret then ZBase (OUT (nat_of_int 0)) (* placeholder, not executed *) else parse_op o istep in
-        let before = !m in
-        let (m', r) = if is_ret then (!m, RUnit) else zstep_model !m op in
+        let (opl, rep) = if is_ret then ([ZBase (OUT (nat_of_int 0))] (* placeholder, not executed *), 0) else expand o istep in
+        let op = List.nth opl rep in
+        let before = ref !m in
+        let (m', r) =
+          if is_ret then (!m, RUnit) else begin
+            (* operations up to the reporting one run while they succeed; a failure is the call's
+               outcome; the trailing ones (deferred) always run *)
+            let st = ref !m and res = ref RUnit and failed = ref false in
+            List.iteri (fun k opk ->
+                if k <= rep then begin
+                  if not !failed then begin
+                    if k = rep then before := !st;
+                    let (st', rk) = zstep_model !st opk in
+                    st := st'; res := rk;
+                    if k < rep && (rk = RErr || rk = RPanic) then failed := true
+                  end
+                end else begin
+                  let (st', _) = zstep_model !st opk in st := st'
+                end) opl;
+            (!st, !res)
+          end in
+        let before = !before in
         m := m';
         if kept && not is_ret then begin
           (match op with
@@ -323,7 +380,27 @@ let run_prog_gen (kept : bool) dt (prog : string) (impl : string) : outcome =
         (match !s with
          | None -> sout := "?" :: !sout
          | Some st ->
-           (match (if is_ret then Some (st, RUnit) else zstep_spec st op) with
+           let spec_run () =
+             if is_ret then Some (st, RUnit) else begin
+               let cur = ref (Some st) and res = ref RUnit and failed = ref false in
+               List.iteri (fun k opk ->
+                   match !cur with
+                   | None -> ()
+                   | Some sk ->
+                     if k <= rep then begin
+                       if not !failed then
+                         (match zstep_spec sk opk with
+                          | None -> cur := None
+                          | Some (sk', rk) ->
+                            cur := Some sk'; res := rk;
+                            if k < rep && (rk = RErr || rk = RPanic) then failed := true)
+                     end else
+                       (match zstep_spec sk opk with
+                        | None -> cur := None
+                        | Some (sk', _) -> cur := Some sk')) opl;
+               match !cur with None -> None | Some sk -> Some (sk, !res)
+             end in
+           (match spec_run () with
             | None -> s := None; sout := "?" :: !sout
             | Some (st', RPanic) ->
               s := None; sout := "panic" :: !sout
